@@ -46,7 +46,10 @@ def _mandy_grid(tier):
                             continue
                         if variant != 'cm' and len(fam) == 3 and d == 2 and m == 3:
                             continue
-                        out.append({'variant': variant, 'd': d, 'm': m, 'fam': fam})
+                        out.append({'variant': variant, 'd': d, 'm': m, 'fam': fam, 'cplx_y': False})
+        # complex-valued y (derivatives in complex coordinates, Fourier amplitudes): the formula (y Psi^+)^T has no conjugation
+        out.append({'variant': variant, 'd': 2, 'm': 2, 'fam': ['id', 'mono2'], 'cplx_y': True})
+        out.append({'variant': variant, 'd': 1, 'm': 3, 'fam': ['const', 'id', 'sin'], 'cplx_y': True})
     seen, res = set(), []
     for p in out:
         if repr(p) not in seen:
@@ -56,13 +59,13 @@ def _mandy_grid(tier):
 
 
 @scenario('C16', 'mandy', _mandy_grid)
-def mandy(ctx, variant, d, m, fam):
+def mandy(ctx, variant, d, m, fam, cplx_y=False):
     """mandy_cm / mandy_fm == U diag(1/s) Vh y^T with the global SVD factors of the transformed data tensor"""
     reg, tdt = ctx.R.regression, ctx.R.transform
     if ctx.mode == 'tv':
         raise SkipTV()
     x = ctx.input('x', (d, m), False)
-    y = ctx.input('y', (d, m), False)
+    y = ctx.input('y', (d, m), cplx_y)
     fs = _scalar_funcs(ctx, tdt, fam)
     if variant == 'cm':
         build = lambda: tdt.coordinate_major(x, fs)
